@@ -111,6 +111,9 @@ func runRouting(r *rep.Report) {
 			byDefault := rec.Header().Get("X-Default-Handler") == "1"
 			want := routedToEngine(v, p)
 			r.Case(fmt.Sprintf("route/%s/%s", v.Name, p), true)
+			if p == base+"/sub" {
+				r.Sample(map[string]any{"kind": "routing", "attach": v.Name, "path": p, "served_by_engine": byEngine, "expected_engine": want})
+			}
 			r.Obs("routing_cases", 1)
 			if want {
 				r.Obs("routed_to_engine_expected", 1)
@@ -389,6 +392,9 @@ func runAdmission(r *rep.Report, c admCfg, reqs []admReq) {
 		r.Case(fmt.Sprintf("adm/%v/%v/%s/%s/%+v", c.Enabled, c.AllowEIO3, c.Hook, c.MW, q), true)
 		r.Obs("admission_cases", 1)
 		desc := map[string]any{"server": c, "request": q, "query": strings.Join(qs, "&")}
+		if rec != nil {
+			r.Sample(map[string]any{"kind": "admission", "server": c, "request": q, "query": strings.Join(qs, "&"), "status": rec.Code, "body": rec.Body.String()})
+		}
 		if rec == nil {
 			r.Violationf("c05-request-never-answered", desc, "request was not answered within 5 s")
 			continue
